@@ -1,11 +1,20 @@
 // STUB - not the Arduino core.  A minimal stand-in for the Arduino `String`
 // class (hardware/arduino/avr/cores/arduino/WString.h), used ONLY by the C17
-// compile-coverage pass that builds the ARDUINO variant of ascon-suite's
-// headers with the host compilers (lib/p_c17.py, tools/gen_cpp_members.py;
-// this directory is on the include path for that pass only).  It has the
-// members the library's headers use, with the signatures of the real class:
-//   String(const char *cstr = ""), String(const String &), ~String(),
-//   const char *c_str() const, unsigned int length() const.
+// check: the compile-coverage pass that builds the ARDUINO variant of
+// ascon-suite's headers with the host compilers, and the `default-arduino`
+// run-time harness (harness/h_cpp.cpp built with -DARDUINO=10819) that EXECUTES
+// the String overloads (lib/p_c17.py, tools/gen_cpp_members.py; this directory
+// is on the include path for those two uses only).  It is functional - a heap
+// buffer of length() characters followed by a NUL, as in the real class - and
+// has the members the library's headers and the harness use, with the
+// signatures of the real class:
+//   String(const char *cstr = ""), String(const String &), explicit String(char),
+//   ~String(), operator=, const char *c_str() const, unsigned int length() const,
+//   unsigned char concat(char | const char * | const String &), operator+=,
+//   operator+ (String, String), equals / operator== / operator!=,
+//   char charAt(unsigned int) const, char operator[](unsigned int) const.
+// As in the real class a character appended with concat(char) may be NUL: the
+// string then has an embedded NUL and length() counts it.
 #ifndef VERIF_ARDUINO_STUB_WSTRING_H
 #define VERIF_ARDUINO_STUB_WSTRING_H
 #include <string.h>
@@ -16,13 +25,39 @@ class String
 public:
     String(const char *cstr = "") : buffer(0), len(0) { if (cstr) copy(cstr, (unsigned int)strlen(cstr)); }
     String(const String &str) : buffer(0), len(0) { if (str.buffer) copy(str.buffer, str.len); }
+    explicit String(char c) : buffer(0), len(0) { copy(&c, 1); }
     ~String() { free(buffer); }
     String &operator=(const String &rhs) { if (this != &rhs) { free(buffer); buffer = 0; len = 0; if (rhs.buffer) copy(rhs.buffer, rhs.len); } return *this; }
+    String &operator=(const char *cstr) { free(buffer); buffer = 0; len = 0; if (cstr) copy(cstr, (unsigned int)strlen(cstr)); return *this; }
     const char *c_str() const { return buffer ? buffer : ""; }
     unsigned int length() const { return len; }
+    unsigned char concat(const char *s, unsigned int n) {
+        if (!s) return 0;
+        if (n == 0) return 1;
+        char *nb = (char *)realloc(buffer, len + n + 1);
+        if (!nb) return 0;
+        buffer = nb; memcpy(buffer + len, s, n); len += n; buffer[len] = 0;
+        return 1;
+    }
+    unsigned char concat(const String &str) { String tmp(str); return concat(tmp.c_str(), tmp.len); }
+    unsigned char concat(const char *cstr) { return cstr ? concat(cstr, (unsigned int)strlen(cstr)) : 0; }
+    unsigned char concat(char c) { return concat(&c, 1); }
+    String &operator+=(const String &rhs) { concat(rhs); return *this; }
+    String &operator+=(const char *cstr) { concat(cstr); return *this; }
+    String &operator+=(char c) { concat(c); return *this; }
+    unsigned char equals(const String &s) const { return len == s.len && (len == 0 || memcmp(buffer, s.buffer, len) == 0); }
+    unsigned char equals(const char *cstr) const { return cstr ? (len == strlen(cstr) && memcmp(c_str(), cstr, len) == 0) : (len == 0); }
+    unsigned char operator==(const String &rhs) const { return equals(rhs); }
+    unsigned char operator==(const char *cstr) const { return equals(cstr); }
+    unsigned char operator!=(const String &rhs) const { return !equals(rhs); }
+    unsigned char operator!=(const char *cstr) const { return !equals(cstr); }
+    char charAt(unsigned int index) const { return index < len ? buffer[index] : 0; }
+    char operator[](unsigned int index) const { return charAt(index); }
 private:
     void copy(const char *s, unsigned int n) { buffer = (char *)malloc(n + 1); if (buffer) { memcpy(buffer, s, n); buffer[n] = 0; len = n; } }
     char *buffer;
     unsigned int len;
 };
+inline String operator+(const String &a, const String &b) { String r(a); r.concat(b); return r; }
+inline String operator+(const String &a, const char *b) { String r(a); r.concat(b); return r; }
 #endif
